@@ -111,4 +111,285 @@ theorem callFun_max (s : St) (e1 e2 : Expr) (a b : Int) (f : Nat)
 
 end calls
 
+/-! ## the pieces of `fmtF` -/
+
+def c1 : Expr := .bin .lt (.v "m") (.v "d.dp")
+def p1 : List Stmt := [.assign "m" (.bin .add (.v "m") (.int 1))]
+def b1 : List Stmt := [.assign "dst" (.pushB (.v "dst") (.u8 48))]
+def c2 : Expr := .bin .lt (.v "i") (.v "prec")
+def p2 : List Stmt := [.assign "i" (.bin .add (.v "i") (.int 1))]
+def b2 : List Stmt := [
+  .assign "ch" (.conv .u8 (.u8 48)),
+  .assign "j" (.bin .add (.v "d.dp") (.v "i")),
+  .ite (.land (.bin .le (.int 0) (.v "j")) (.bin .lt (.v "j") (.v "d.nd"))) [
+    .assign "ch" (.idxB (.v "d.d") (.v "j"))] [],
+  .assign "dst" (.pushB (.v "dst") (.v "ch"))]
+
+def sSign : Stmt := .ite (.v "neg") [.assign "dst" (.pushB (.v "dst") (.u8 45))] []
+def sInt : Stmt := .ite (.bin .gt (.v "d.dp") (.int 0)) [
+    .callAssign ["m"] "" "min" [] [(.v "d.nd"), (.v "d.dp")],
+    .assign "dst" (.appendB (.v "dst") (.sliceB (.v "d.d") (.int 0) (.v "m"))),
+    .forc [] c1 p1 b1] [
+    .assign "dst" (.pushB (.v "dst") (.u8 48))]
+def sFrac : Stmt := .ite (.bin .gt (.v "prec") (.int 0)) [
+    .assign "dst" (.pushB (.v "dst") (.u8 46)),
+    .forc [.assign "i" (.int 0)] c2 p2 b2] []
+
+theorem gofmtF_body : gofmtF.body = [sSign, sInt, sFrac, .ret [(.v "dst")]] := rfl
+
+section loops
+attribute [local simp] exec exec1 execCases evalE evalEs isOneOf binop convert ofE Env.get_set
+
+/-- `for ; m < d.dp; m++ { dst = append(dst, '0') }` with `k` iterations to go -/
+theorem loop1 (tape : Array UInt64) (dp : Int) : ∀ (k : Nat) (e : Env) (m : Int) (out : Bytes) (fuel : Nat),
+    k < fuel → m + k = dp → e.get "m" = some (.int m) → e.get "d.dp" = some (.int dp) →
+    e.get "dst" = some (.bytes out) →
+    ∃ e', exec1 goFuns fuel (.forc [] c1 p1 b1) ⟨e, tape⟩ = .normal ⟨e', tape⟩ ∧
+      e'.get "dst" = some (.bytes (out ++ Array.replicate k 48)) ∧ Keep e e' := by
+  intro k
+  induction k with
+  | zero =>
+    intro e m out fuel hf hm h1 h2 h3
+    obtain ⟨f, rfl⟩ : ∃ f, fuel = f + 1 := ⟨fuel - 1, by omega⟩
+    have : ¬ m < dp := by omega
+    exact ⟨e, by simp [c1, h1, h2, this], by simp [h3], Keep.refl e⟩
+  | succ k ih =>
+    intro e m out fuel hf hm h1 h2 h3
+    obtain ⟨f, rfl⟩ : ∃ f, fuel = f + 1 := ⟨fuel - 1, by omega⟩
+    have hc : m < dp := by omega
+    have hstep : exec1 goFuns (f + 1) (.forc [] c1 p1 b1) ⟨e, tape⟩ =
+        exec1 goFuns f (.forc [] c1 p1 b1) ⟨(e.set "dst" (.bytes (out.push 48))).set "m" (.int (m + 1)), tape⟩ := by
+      have hb : exec goFuns f b1 ⟨e, tape⟩ = .normal ⟨e.set "dst" (.bytes (out.push 48)), tape⟩ := by
+        simp [b1, h3]
+      have hp : exec goFuns f p1 ⟨e.set "dst" (.bytes (out.push 48)), tape⟩ =
+          .normal ⟨(e.set "dst" (.bytes (out.push 48))).set "m" (.int (m + 1)), tape⟩ := by
+        simp [p1, h1]
+      rw [exec1]
+      simp only [evalE, c1, h1, h2, binop, hc, decide_true, hb, hp]
+    obtain ⟨e', h4, h5, h6⟩ := ih ((e.set "dst" (.bytes (out.push 48))).set "m" (.int (m + 1))) (m + 1) (out.push 48) f
+      (by omega) (by omega) (by simp) (by simp [h2]) (by simp)
+    refine ⟨e', by rw [hstep, h4], ?_, ?_⟩
+    · rw [h5]; congr 2
+      apply Array.ext'
+      simp [List.replicate_succ]
+    · exact ((Keep.set e "dst" _ (by decide)).set' "m" _ (by decide)).trans h6
+
+/-- the byte the fraction loop appends for index `i` -/
+def fracCh (dd : Bytes) (nd dp : Int) (i : Nat) : UInt8 :=
+  if 0 ≤ dp + (i : Int) ∧ dp + (i : Int) < nd then dd.getD (dp + (i : Int)).toNat 0 else 48
+
+theorem loop2 (tape : Array UInt64) (dd : Bytes) (nd dp prec : Int) (hnd : nd ≤ dd.size) :
+    ∀ (k : Nat) (e : Env) (i : Nat) (out : Bytes) (fuel : Nat),
+    k < fuel → (i : Int) + k = prec → e.get "i" = some (.int i) → e.get "prec" = some (.int prec) →
+    e.get "d.dp" = some (.int dp) → e.get "d.nd" = some (.int nd) → e.get "d.d" = some (.bytes dd) →
+    e.get "dst" = some (.bytes out) →
+    ∃ e', exec1 goFuns fuel (.forc [] c2 p2 b2) ⟨e, tape⟩ = .normal ⟨e', tape⟩ ∧
+      e'.get "dst" = some (.bytes (out ++ ((List.range' i k).map (fracCh dd nd dp)).toArray)) ∧ Keep e e' := by
+  intro k
+  induction k with
+  | zero =>
+    intro e i out fuel hf hm h1 h2 h3 h4 h5 h6
+    obtain ⟨f, rfl⟩ : ∃ f, fuel = f + 1 := ⟨fuel - 1, by omega⟩
+    have : ¬ (i : Int) < prec := by omega
+    exact ⟨e, by simp [c2, h1, h2, this], by simp [h6], Keep.refl e⟩
+  | succ k ih =>
+    intro e i out fuel hf hm h1 h2 h3 h4 h5 h6
+    obtain ⟨f, rfl⟩ : ∃ f, fuel = f + 1 := ⟨fuel - 1, by omega⟩
+    have hc : (i : Int) < prec := by omega
+    obtain ⟨eb, hb, hb1, hi, hbk⟩ : ∃ eb, exec goFuns f b2 ⟨e, tape⟩ = .normal ⟨eb, tape⟩ ∧
+        eb.get "dst" = some (.bytes (out.push (fracCh dd nd dp i))) ∧ eb.get "i" = some (.int i) ∧ Keep e eb := by
+      by_cases hj : 0 ≤ dp + (i : Int) ∧ dp + (i : Int) < nd
+      · have hj2 : dp + (i : Int) < dd.size := by omega
+        have hj3 : (dp + (i : Int)).toNat < dd.size := by omega
+        refine ⟨_, by simp [b2, h1, h3, h4, h5, h6, hj.1, hj.2, hj2]; rfl, by simp [fracCh, hj, hj3], by simp [h1], ?_⟩
+        exact (((Keep.set e "ch" _ (by decide)).set' "j" _ (by decide)).set' "ch" _ (by decide)).set' "dst" _ (by decide)
+      · have hj' : ¬ (0 ≤ dp + (i : Int)) ∨ ¬ (dp + (i : Int) < nd) := by omega
+        rcases hj' with hj' | hj'
+        · refine ⟨_, by simp [b2, h1, h3, h4, h5, h6, hj']; rfl, by simp [fracCh, hj'], by simp [h1], ?_⟩
+          exact ((Keep.set e "ch" _ (by decide)).set' "j" _ (by decide)).set' "dst" _ (by decide)
+        · by_cases hj0 : 0 ≤ dp + (i : Int)
+          · refine ⟨_, by simp [b2, h1, h3, h4, h5, h6, hj', hj0]; rfl, by simp [fracCh, hj'], by simp [h1], ?_⟩
+            exact ((Keep.set e "ch" _ (by decide)).set' "j" _ (by decide)).set' "dst" _ (by decide)
+          · refine ⟨_, by simp [b2, h1, h3, h4, h5, h6, hj0]; rfl, by simp [fracCh, hj0], by simp [h1], ?_⟩
+            exact ((Keep.set e "ch" _ (by decide)).set' "j" _ (by decide)).set' "dst" _ (by decide)
+    have hstep : exec1 goFuns (f + 1) (.forc [] c2 p2 b2) ⟨e, tape⟩ =
+        exec1 goFuns f (.forc [] c2 p2 b2) ⟨eb.set "i" (.int ((i : Int) + 1)), tape⟩ := by
+      have hp : exec goFuns f p2 ⟨eb, tape⟩ = .normal ⟨eb.set "i" (.int ((i : Int) + 1)), tape⟩ := by
+        simp [p2, hi]
+      rw [exec1]
+      simp only [evalE, c2, h1, h2, binop, hc, decide_true, hb, hp]
+    obtain ⟨e', g4, g5, g6⟩ := ih (eb.set "i" (.int ((i : Int) + 1))) (i + 1) (out.push (fracCh dd nd dp i)) f
+      (by omega) (by push_cast; omega) (by simp) (by simp [hbk "prec" (by decide), h2])
+      (by simp [hbk "d.dp" (by decide), h3]) (by simp [hbk "d.nd" (by decide), h4])
+      (by simp [hbk "d.d" (by decide), h5]) (by simp [hb1])
+    refine ⟨e', by rw [hstep, g4], ?_, ?_⟩
+    · rw [g5]; congr 2
+      apply Array.ext'
+      simp [List.range'_succ]
+    · exact (hbk.set' "i" _ (by decide)).trans g6
+
+end loops
+
+/-! ## sequencing -/
+
+theorem exec_append (funs : String → Option FunDef) (fuel : Nat) (a b : List Stmt) : ∀ s : St,
+    exec funs fuel (a ++ b) s = match exec funs fuel a s with | .normal s' => exec funs fuel b s' | o => o := by
+  induction a with
+  | nil => intro s; simp [exec]
+  | cons x r ih =>
+    intro s
+    simp only [List.cons_append]
+    rw [exec, exec]
+    cases h : exec1 funs fuel x s <;> simp [ih]
+
+theorem exec_single (funs : String → Option FunDef) (fuel : Nat) (st : Stmt) (s : St) :
+    exec funs fuel [st] s = match exec1 funs fuel st s with | .normal s' => .normal s' | o => o := by
+  rw [exec]
+  cases exec1 funs fuel st s <;> simp [exec]
+
+/-! ## what `fmtF` computes -/
+
+def intPart (dd : Bytes) (nd dp : Int) : Bytes :=
+  if dp > 0 then dd.extract 0 (min nd dp).toNat ++ Array.replicate (dp - min nd dp).toNat 48 else #[48]
+
+def fracPart (dd : Bytes) (nd dp prec : Int) : Bytes :=
+  if prec > 0 then #[46] ++ ((List.range' 0 prec.toNat).map (fracCh dd nd dp)).toArray else #[]
+
+/-- `fmtF(nil, neg, decimalSlice{d: dd, nd: nd, dp: dp}, prec)` -/
+def fmtFGo (neg : Bool) (dd : Bytes) (nd dp prec : Int) : Bytes :=
+  (signL neg).toArray ++ intPart dd nd dp ++ fracPart dd nd dp prec
+
+/-- fuel for the body of `fmtF`: the longer of its two loops, the loop's initialisation and its last test -/
+def fmtFFuel (nd dp prec : Int) : Nat := max (dp - min nd dp).toNat prec.toNat + 2
+
+/-- what `fmtF` reads of its frame -/
+structure FIn (e : Env) (dd : Bytes) (nd dp prec : Int) (neg : Bool) : Prop where
+  dd : e.get "d.d" = some (.bytes dd)
+  nd : e.get "d.nd" = some (.int nd)
+  dp : e.get "d.dp" = some (.int dp)
+  prec : e.get "prec" = some (.int prec)
+  neg : e.get "neg" = some (.bool neg)
+  strs : e.get "Strings.B" = none
+  msg : e.get "Message" = none
+
+theorem FIn.keep {e e' : Env} {dd nd dp prec neg} (h : FIn e dd nd dp prec neg) (hk : Keep e e') :
+    FIn e' dd nd dp prec neg :=
+  ⟨by rw [hk _ (by decide), h.dd], by rw [hk _ (by decide), h.nd], by rw [hk _ (by decide), h.dp],
+   by rw [hk _ (by decide), h.prec], by rw [hk _ (by decide), h.neg], by rw [hk _ (by decide), h.strs],
+   by rw [hk _ (by decide), h.msg]⟩
+
+section segs
+attribute [local simp] exec exec1 execCases evalE evalEs isOneOf binop convert ofE Env.get_set
+
+theorem seg_sign (tape : Array UInt64) (fuel : Nat) (e : Env) (dd nd dp prec neg) (out : Bytes)
+    (h : FIn e dd nd dp prec neg) (hd : e.get "dst" = some (.bytes out)) :
+    ∃ e', exec1 goFuns fuel sSign ⟨e, tape⟩ = .normal ⟨e', tape⟩ ∧
+      e'.get "dst" = some (.bytes (out ++ (signL neg).toArray)) ∧ Keep e e' := by
+  cases neg
+  · exact ⟨e, by simp [sSign, h.neg], by simp [signL, hd], Keep.refl e⟩
+  · refine ⟨_, by simp [sSign, h.neg, hd]; rfl, by simp [signL], Keep.set e "dst" _ (by decide)⟩
+
+theorem seg_int (tape : Array UInt64) (fuel : Nat) (e : Env) (dd nd dp prec neg) (out : Bytes)
+    (h : FIn e dd nd dp prec neg) (hd : e.get "dst" = some (.bytes out))
+    (h0 : 0 ≤ nd) (h1 : nd ≤ dd.size) (hf : (dp - min nd dp).toNat + 2 ≤ fuel) :
+    ∃ e', exec1 goFuns fuel sInt ⟨e, tape⟩ = .normal ⟨e', tape⟩ ∧
+      e'.get "dst" = some (.bytes (out ++ intPart dd nd dp)) ∧ Keep e e' := by
+  obtain ⟨f, rfl⟩ : ∃ f, fuel = f + 1 := ⟨fuel - 1, by omega⟩
+  by_cases hp : dp > 0
+  · have hcall := callFun_min ⟨e, tape⟩ (.v "d.nd") (.v "d.dp") nd dp f h.strs h.msg (by simp [h.nd]) (by simp [h.dp])
+    have hm0 : 0 ≤ min nd dp := by omega
+    have hm1 : min nd dp ≤ dd.size := by omega
+    have hpre : exec goFuns (f + 1) [.callAssign ["m"] "" "min" [] [(.v "d.nd"), (.v "d.dp")],
+        .assign "dst" (.appendB (.v "dst") (.sliceB (.v "d.d") (.int 0) (.v "m")))] ⟨e, tape⟩ =
+        .normal ⟨(e.set "m" (.int (min nd dp))).set "dst" (.bytes (out ++ dd.extract 0 (min nd dp).toNat)), tape⟩ := by
+      simp [hcall, assignTargets, h.dd, hd, hm0, hm1]
+    obtain ⟨e', g1, g2, g3⟩ := loop1 tape dp (dp - min nd dp).toNat
+      ((e.set "m" (.int (min nd dp))).set "dst" (.bytes (out ++ dd.extract 0 (min nd dp).toNat))) (min nd dp)
+      (out ++ dd.extract 0 (min nd dp).toNat) (f + 1) (by omega) (by omega) (by simp) (by simp [h.dp]) (by simp)
+    refine ⟨e', ?_, ?_, ?_⟩
+    · rw [sInt, exec1]
+      simp only [evalE, h.dp, binop, hp, decide_true]
+      rw [show ([.callAssign ["m"] "" "min" [] [(.v "d.nd"), (.v "d.dp")],
+        .assign "dst" (.appendB (.v "dst") (.sliceB (.v "d.d") (.int 0) (.v "m"))), .forc [] c1 p1 b1] : List Stmt) =
+        [.callAssign ["m"] "" "min" [] [(.v "d.nd"), (.v "d.dp")],
+        .assign "dst" (.appendB (.v "dst") (.sliceB (.v "d.d") (.int 0) (.v "m")))] ++ [.forc [] c1 p1 b1] from rfl,
+        exec_append, hpre]
+      simp only [exec_single, g1]
+    · rw [g2]; simp [intPart, hp, Array.append_assoc]
+    · exact ((Keep.set e "m" _ (by decide)).set' "dst" _ (by decide)).trans g3
+  · refine ⟨_, by simp [sInt, h.dp, hp, hd]; rfl, by simp [intPart, hp], Keep.set e "dst" _ (by decide)⟩
+
+theorem seg_frac (tape : Array UInt64) (fuel : Nat) (e : Env) (dd nd dp prec neg) (out : Bytes)
+    (h : FIn e dd nd dp prec neg) (hd : e.get "dst" = some (.bytes out))
+    (h1 : nd ≤ dd.size) (hf : prec.toNat + 2 ≤ fuel) :
+    ∃ e', exec1 goFuns fuel sFrac ⟨e, tape⟩ = .normal ⟨e', tape⟩ ∧
+      e'.get "dst" = some (.bytes (out ++ fracPart dd nd dp prec)) ∧ Keep e e' := by
+  obtain ⟨f, rfl⟩ : ∃ f, fuel = f + 1 := ⟨fuel - 1, by omega⟩
+  by_cases hp : prec > 0
+  · obtain ⟨e', g1, g2, g3⟩ := loop2 tape dd nd dp prec h1 prec.toNat
+      ((e.set "dst" (.bytes (out.push 46))).set "i" (.int 0)) 0 (out.push 46) f (by omega) (by omega)
+      (by simp) (by simp [h.prec]) (by simp [h.dp]) (by simp [h.nd]) (by simp [h.dd]) (by simp)
+    refine ⟨e', ?_, ?_, ?_⟩
+    · rw [sFrac, exec1]
+      simp only [evalE, h.prec, binop, hp, decide_true]
+      rw [exec]
+      simp only [exec1, evalE, hd]
+      rw [exec_single, exec1]
+      simp only [exec, exec1, evalE, Env.set, UInt8.reduceOfNat]
+      rw [g1]
+    · rw [g2]; simp [fracPart, hp]
+    · exact ((Keep.set e "dst" _ (by decide)).set' "i" _ (by decide)).trans g3
+  · exact ⟨e, by simp [sFrac, h.prec, hp], by simp [fracPart, hp, hd], Keep.refl e⟩
+
+/-- the body of `fmtF` on any frame holding its arguments -/
+theorem fmtF_exec (tape : Array UInt64) (fuel : Nat) (e : Env) (dd nd dp prec neg) (dst : Bytes)
+    (h : FIn e dd nd dp prec neg) (hd : e.get "dst" = some (.bytes dst))
+    (h0 : 0 ≤ nd) (h1 : nd ≤ dd.size) (hf : fmtFFuel nd dp prec ≤ fuel) :
+    ∃ e', exec goFuns fuel gofmtF.body ⟨e, tape⟩ = .ret ⟨e', tape⟩ [.bytes (dst ++ fmtFGo neg dd nd dp prec)] := by
+  have hf1 : (dp - min nd dp).toNat + 2 ≤ fuel := by unfold fmtFFuel at hf; omega
+  have hf2 : prec.toNat + 2 ≤ fuel := by unfold fmtFFuel at hf; omega
+  obtain ⟨ea, a1, a2, a3⟩ := seg_sign tape fuel e dd nd dp prec neg dst h hd
+  obtain ⟨eb, b1, b2, b3⟩ := seg_int tape fuel ea dd nd dp prec neg _ (h.keep a3) a2 h0 h1 hf1
+  obtain ⟨ec, c1, c2, c3⟩ := seg_frac tape fuel eb dd nd dp prec neg _ ((h.keep a3).keep b3) b2 h1 hf2
+  refine ⟨ec, ?_⟩
+  rw [gofmtF_body, exec, a1]
+  simp only []
+  rw [exec, b1]
+  simp only []
+  rw [exec, c1]
+  simp [c2, fmtFGo, Array.append_assoc]
+
+end segs
+
+/-! ## `fmtFGo` on the digits of a `Shortest` is the model's `fmtF` -/
+
+theorem fracCh_asc (ds : List Nat) (dp : Int) (i : Nat) :
+    fracCh (asc ds).toArray ds.length dp i =
+      if 0 ≤ dp + (i : Int) ∧ dp + (i : Int) < (ds.length : Int)
+        then digitChar (ds.getD (dp + (i : Int)).toNat 0) else 48 := by
+  unfold fracCh
+  by_cases h : 0 ≤ dp + (i : Int) ∧ dp + (i : Int) < (ds.length : Int)
+  · have h3 : (dp + (i : Int)).toNat < ds.length := by omega
+    simp [h, asc, h3]
+  · simp [h]
+
+theorem fmtFGo_model (neg : Bool) (s : Shortest) :
+    fmtFGo neg (asc s.digits).toArray s.digits.length s.dp (max ((s.digits.length : Int) - s.dp) 0) = fmtF neg s := by
+  apply Array.ext'
+  rw [fmtF_raw]
+  unfold fmtFGo fmtFRaw intPart fracPart
+  have hm : (min (s.digits.length : Int) s.dp).toNat = min s.digits.length s.dp.toNat := by omega
+  have hk : (s.dp - min (s.digits.length : Int) s.dp).toNat = s.dp.toNat - min s.digits.length s.dp.toNat := by omega
+  have hp : (max ((s.digits.length : Int) - s.dp) 0).toNat = ((s.digits.length : Int) - s.dp).toNat := by omega
+  have hpp : (max ((s.digits.length : Int) - s.dp) 0 > 0) ↔ (((s.digits.length : Int) - s.dp).toNat > 0) := by omega
+  have hfc : fracCh (asc s.digits).toArray s.digits.length s.dp = fun (i : Nat) =>
+      if 0 ≤ s.dp + (i : Int) ∧ s.dp + (i : Int) < (s.digits.length : Int)
+        then digitChar (s.digits.getD (s.dp + (i : Int)).toNat 0) else 48 := by
+    funext i; exact fracCh_asc _ _ _
+  rw [hm, hk, hp, hfc]
+  by_cases h1 : s.dp > 0 <;> by_cases h2 : ((s.digits.length : Int) - s.dp).toNat > 0
+  all_goals
+    have h2' := hpp.2
+    simp [h1, h2, hpp, map_const_range', asc]
+
 end SJ.GoFloatFmt
